@@ -4,12 +4,13 @@ Apply a textual mutation to /repo, run the property's check, restore /repo. Deve
 import sys, subprocess, os
 pid, rel, old, new = sys.argv[1:5]
 tier = sys.argv[6] if len(sys.argv) > 6 else 'quick'
+extra = sys.argv[7:]
 p = os.path.join('/repo', rel)
 s = open(p).read()
 assert old in s, "pattern not found"
 open(p, 'w').write(s.replace(old, new, 1))
 try:
-    r = subprocess.run(['python3', '/verif/vcheck.py', pid, '--tier', tier], stdout=subprocess.PIPE, stderr=subprocess.STDOUT, text=True, env=dict(os.environ, VP_DEV='1'))
+    r = subprocess.run(['python3', '/verif/vcheck.py', pid, '--tier', tier] + extra, stdout=subprocess.PIPE, stderr=subprocess.STDOUT, text=True, env=dict(os.environ, VP_DEV='1'))
     print(r.stdout[-3000:]); print("exit", r.returncode)
 finally:
     subprocess.run(['git', '-C', '/repo', 'checkout', '--', '.'])
